@@ -363,6 +363,9 @@ def call_method(eng, st, bm, args, kwargs, line=0):
     if isinstance(obj, ListV):
         if name == "append":
             (v,) = args
+            vd = eng.deref(st, v)
+            if isinstance(vd, ListV) and not obj.concrete():
+                v = vd  # nested lists are kept by value (the inner list is not aliased elsewhere)
             st.heap[bm.obj.loc] = obj.append(v)
             return None
         if name == "extend" and obj.concrete():
